@@ -34,6 +34,7 @@ RULE += ' Round 9: requests naming a spike twice (ascending with as many repeats
 RULE += ' Round 10: column tables padded with -1 (scattered, or one whole column before a used one); requests naming ids that are no channel (n_channels, n_channels + 93).'
 RULE += ' Round 11: requests made only of stored spikes in no particular order (on-the-fly route), compared with the same set in increasing order.'
 RULE += ' Round 12: one on-the-fly request of 6200 stored spikes; a dataset of 2100 templates with 16-bit ids and 32 local channels.'
+RULE += ' Round 13: a far unknown channel id (5000) among the requested ones.'
 EXHAUSTIVE = {'quick': False, 'thorough': False}
 FLOORS = {'quick': {'evaluations': 20000, 'distinct_nontrivial': 8000,
                     'monitors': {'M2.from_sparse.checked': 12000}},
